@@ -38,7 +38,18 @@ def run_chunk(args):
             res["opdist"][d["op"]] = res["opdist"].get(d["op"], 0) + 1
         res["ops"] += len(hist)
         if corr:
-            r = R.run_recorded(uni, reg, cls, cfg, hist)
+            try:
+                r = R.run_recorded(uni, reg, cls, cfg, hist)
+            except Exception as e:  # noqa: BLE001   the recorder could not make sense of what it saw: a broken tie, not a crash of the check
+                res["mismatch"].append({"cls": cls, "cfg": cfg, "hist": hist, "op": {"op": "recorder"}, "differs": ["recorder"],
+                                        "model": "-", "real": "%s: %s" % (type(e).__name__, str(e)[:300])})
+                fails, _o = L.run_history(uni, cls, cfg, hist)
+                if fails:
+                    res["fails"].append({"cls": cls, "cfg": cfg, "hist": hist, "fails": [list(f) for f in fails[:3]]})
+                reg = R.Registry(uni)
+                reg._uni_sent = True
+                lines.append("skip-line")
+                continue
             base = len(lines)
             lines += r["lines"]
             expect += [(base + li, e, (len(metas), k)) for li, e, k in r["expect"]]
